@@ -243,14 +243,21 @@ func c14FPCases(der, otherDER []byte, full bool) []c14FPCase {
 	}
 	bad := c14AlterDigit(good, 40, c14HexDigits[(c14HexVal(c14DigitAt(good, 40))+1)%16])
 	for _, name := range []string{"sha-256", "SHA-256", "Sha-256", "sha-1", "sha-384", "sha-512", "md5", "sha256", "", "sha-256 ", "unknown-hash"} {
-		add("name="+name+"|value=sha256-correct", "hash name "+name+" with the correct sha-256 value", c14One(name, good))
-		add("name="+name+"|value=sha256-altered", "hash name "+name+" with an altered sha-256 value", c14One(name, bad))
+		cls := "hash-name=unknown"
+		if _, known := c14Digest(name, nil); known {
+			cls = "hash-name=other-known-hash"
+			if strings.EqualFold(name, "sha-256") {
+				cls = "hash-name=sha-256-case-variant"
+			}
+		}
+		add(cls+"|value=sha256-correct", fmt.Sprintf("hash name %q with the correct sha-256 value", name), c14One(name, good))
+		add(cls+"|value=sha256-altered", fmt.Sprintf("hash name %q with an altered sha-256 value", name), c14One(name, bad))
 	}
 	for _, name := range []string{"md5", "sha-1", "sha-224", "sha-384", "sha-512"} {
 		s, _ := c14Digest(name, der)
-		add("name="+name+"|value=own-correct", name+" with the correct "+name+" value", c14One(name, c14ColonHex(s)))
+		add("hash-name=other-known-hash|value=own-correct", name+" with the correct "+name+" value", c14One(name, c14ColonHex(s)))
 		s[len(s)-1] ^= 1
-		add("name="+name+"|value=own-altered", name+" with its last bit flipped", c14One(name, c14ColonHex(s)))
+		add("hash-name=other-known-hash|value=own-altered", name+" with its last bit flipped", c14One(name, c14ColonHex(s)))
 	}
 	add("empty-list", "no fingerprint at all", nil)
 	add("empty-value", "sha-256 with an empty value", c14One("sha-256", ""))
@@ -827,6 +834,21 @@ func c14RunPair(t *testing.T, c *vkit.Check, pcase c14PairCase) { //nolint:cyclo
 			vPairFatalf("liveness guard expired: the victim's DTLS transport reported neither connected nor failed/closed (%s, states %v)", pcase.key(), victim.DTLSStates())
 		}
 		guard.Stop()
+		// several of these may be ready at once: the first one in the recorded order counts
+		for _, st := range victim.DTLSStates() {
+			if st == "connected" {
+				outcome = st
+
+				break
+			}
+			if st == "failed" || st == "closed" {
+				// on a failed handshake pion reports failed, or closed and then failed, depending on
+				// timing (the DTLS connection closes its endpoint before Start returns): one class
+				outcome = "failed-or-closed"
+
+				break
+			}
+		}
 	}
 	// the certificate the peer really presented (recorded by the verify callback before it
 	// judges), else - no handshake took place - the first configured one
